@@ -3,7 +3,8 @@ SPEC = {
     "level": "proof",
     "lean_modules": ["PallasVerif.Props.C11"],
     "required_theorems": ["verify_sign_generic", "verify_sign_standard", "verify_sign_extended", "check_structure_iff",
-                          "clamp_satisfies", "from_bytes_accepts_iff"],
+                          "check_structure_scalar", "clamp_satisfies", "from_bytes_accepts_iff", "verify_rejects_allzero",
+                          "verifyRfc_rejects_noncanonical"],
     "streams": [{"name": "ed25519", "quick": 96, "thorough": 1600}],
     "rule": "a case = one random 32-byte secret key (incl. all-zero / all-ff), a message of 0..1024 bytes (boundary lengths of the SHA-512 "
             "padding included), its public key, signature and verification, 6 (thorough 24) single-bit tamperings of message / key / signature, "
